@@ -156,6 +156,26 @@ def install():
 
     cb.CascadeBuilder.build_cascades = build_cascades
 
+    # ---- SchedulerOperation.create_scheduler_info: the stripe input -------------------------------------------------
+    from ethosu.vela import architecture_allocator as aa
+
+    orig_csi = sc.SchedulerOperation.create_scheduler_info
+
+    def create_scheduler_info(self, nng, stripe):
+        r = orig_csi(self, nng, stripe)
+        try:
+            k = self.kernel
+            line = (f"sinfo {_shp(self.ofm.shape)} {_shp(stripe)} {_shp(self.ifm.shape)} {'-' if self.ifm2 is None else _shp(self.ifm2.shape)} "
+                    f"{_i(k.stride.y)} {_i(k.stride.x)} {_i(k.area_height())} {_i(k.area_width())} {_i(aa.to_upscale(self.resampling_mode))} "
+                    f"{int(bool(aa.is_nearest(self.resampling_mode)))}")
+            _rec.append({"kind": "sinfo", "line": line,
+                         "real": f"{_shp(r.stripe_input)} {'-' if r.stripe_input2 is None else _shp(r.stripe_input2)}"})
+        except Exception:
+            _errors.append(traceback.format_exc()[-1500:])
+        return r
+
+    sc.SchedulerOperation.create_scheduler_info = create_scheduler_info
+
     # ---- build_cascades_for_min_schedule: the non-local usage ------------------------------------------------------
     def _min_nl_record(top, builder, min_schedule):
         sched = top["scheduler"]
@@ -879,7 +899,8 @@ def stage(ck, outs, prefix="sched_"):
         names = {"bcasc": "Model/SchedMem.buildCascades = CascadeBuilder.build_cascades", "optsub": "Model/SchedMem.optimizeSubSchedule / subNonLocal = Scheduler.optimize_sub_schedule",
                  "minnl": "Model/SchedMem.minNonLocal = Scheduler.build_cascades_for_min_schedule", "tusage": "Model/SchedMem.temporalUsage = LiveRangeGraph.get_temporal_memory_usage",
                  "fast": "Model/SchedMem.useFastStorage = Scheduler.use_fast_storage_for_feature_maps", "ffast": "Model/SchedMem.forcedToFast = the loop 'Force all OFMs to fast-storage'",
-                 "opbuf": "Model/SchedMem.operatorBuffering = Scheduler.propose_operator_buffering", "wbuf": "Model/SchedMem.weightBufferDecision = tail of Scheduler.propose_weight_buffering"}
+                 "opbuf": "Model/SchedMem.operatorBuffering = Scheduler.propose_operator_buffering",
+                 "sinfo": "Model/SchedMem.stripeInputs = SchedulerOperation.create_scheduler_info (stripe_input, stripe_input2)", "wbuf": "Model/SchedMem.weightBufferDecision = tail of Scheduler.propose_weight_buffering"}
         same = [x for x in disagreements if x[0]["kind"] == r["kind"]]
         # failing-input search: does the Lean Spec reject the real values of a network on which model and code disagree?
         hit = next((x for x in same if (x[1]["profile"], x[1]["idx"], x[1]["seed"]) in rejected), None)
